@@ -509,14 +509,20 @@ where
                                     let mut payload: Vec<u8> =
                                         SERVICE_ID_GET_LOG_INFO.to_ne_bytes().into();
                                     let apid_buf = apid.as_buf();
+                                    // the apid desc is limited so that the msg len fits into the u16 of the standard header
+                                    // (15 = the bytes of the payload before the desc)
+                                    let max_desc_len =
+                                        (u16::MAX - self.len_wo_payload) as usize - 15;
+                                    let desc = &name.as_bytes()
+                                        [..std::cmp::min(name.len(), max_desc_len)];
                                     payload.extend(
                                         [7u8]
                                             .into_iter()
                                             .chain(1u16.to_ne_bytes().into_iter()) // 1 app id, CAN plugin expects == 1
                                             .chain(apid_buf.iter().copied())
                                             .chain(0u16.to_ne_bytes().into_iter()) // 0 ctx ids
-                                            .chain((name.len() as u16).to_ne_bytes().into_iter()) // len of apid desc
-                                            .chain(name.as_bytes().iter().copied()),
+                                            .chain((desc.len() as u16).to_ne_bytes().into_iter()) // len of apid desc
+                                            .chain(desc.iter().copied()),
                                     );
                                     // return a DltMessage with the LOG INFO APID incl. the BusMapping name
                                     let index = self.index;
